@@ -377,3 +377,17 @@ package stringlib
 //@   modifies all(p)
 //@   ensures p.budget == old(p.budget)
 //@   ensures p.budget != 0 && result0 ==> p.used == old(p.used) + ite(maxLen > len(old(p.strVal)), maxLen, len(old(p.strVal)))   // string bytes plus zero padding up to the fixed size
+
+// C19 (plain find): string.find(s, p, init, true) returns the position of the
+// first occurrence of p at or after init, counted from the start of s - the
+// offset found in the suffix s[init-1:] plus the length of the prefix skipped -
+// and the position of its last byte.  (strings.Index is external: the
+// obligation is about how its result is turned into positions.)
+//@ func find
+//@   prop C19 C04
+//@   arith int
+//@   requires t != nil && t.Runtime != nil && c != nil && c.GoFunction != nil && c.next != nil && 0 <= c.nArgs && c.nArgs <= len(c.args) && len(c.args) == 4
+//@   modifies everything()
+//@   exits ContextTerminationError
+//@   assert_before_call Push1#3: typeis($v.iface, int64) && $v.AsInt() == int64(si) + int64(i) + 1
+//@   assert_before_call Push1#4: typeis($v.iface, int64) && $v.AsInt() == int64(si) + int64(i) + int64(len(ptn))
